@@ -1,5 +1,5 @@
 """C10 — reset() returns an online monitor to its initial state."""
-from rtverif import lang, drive
+from rtverif import monitors, lang, drive
 from rtverif import ref_discrete as ref
 from rtverif.props.base import Prop, Verdict, fmt
 from rtverif.props.c02 import past_cfg
@@ -76,7 +76,7 @@ class C10(Prop):
             v.bad('update-after-reset-raises:' + type(e).__name__, '%s [dense online]: update after reset() raised %s'
                   % (text, type(e).__name__))
             return v
-        if repr(got) != repr(want):
+        if not monitors.same_num(got, want):
             v.bad('differs-from-fresh', '%s [dense online] pre=%s post=%s: after reset() update returns %s, a fresh '
                   'monitor %s' % (text, case['pre_sig'], case['post_sig'], got, want))
         return v
